@@ -194,9 +194,9 @@ type runner struct {
 	// whose Open returned an error.
 	gate        *gate
 	failedOpens []*gate
-	db  *pebble.DB
-	lg  *recLogger
-	ev  *events
+	db          *pebble.DB
+	lg          *recLogger
+	ev          *events
 
 	// versions is the history of logical states; versions[durable] is the newest
 	// one guaranteed to survive a crash; pending is the state an in-flight (or
@@ -207,6 +207,8 @@ type runner struct {
 
 	opts *pebble.Options
 	extN int
+	// handles: the file handles opened by the current DB instance
+	handles *handleReg
 
 	stepIdx int
 	labels  map[string]bool
@@ -216,10 +218,10 @@ type runner struct {
 	fgEffect bool
 }
 
-func (r *runner) label(l string) { r.labels[l] = true }
+func (r *runner) label(l string)     { r.labels[l] = true }
 func (r *runner) latest() *dbm.State { return r.versions[len(r.versions)-1] }
-func (r *runner) walOn() bool     { return !r.p.Opt.DisableWAL }
-func (r *runner) fired() bool     { return r.inj.firedTotal() > 0 }
+func (r *runner) walOn() bool        { return !r.p.Opt.DisableWAL }
+func (r *runner) fired() bool        { return r.inj.firedTotal() > 0 }
 
 func (r *runner) where() string {
 	if r.stepIdx < 0 {
@@ -308,7 +310,8 @@ func (r *runner) open() (flow, error) {
 	for attempt := 0; attempt < 2; attempt++ {
 		r.lg = newLogger()
 		r.gate = &gate{in: r.inj, lg: r.lg}
-		opts := buildOptions(r.p.Opt, errorfs.Wrap(safeFS{r.mem}, r.gate), r.ev.listener(), r.lg)
+		r.handles = newHandleReg()
+		opts := buildOptions(r.p.Opt, errorfs.Wrap(safeFS{FS: r.mem, reg: r.handles}, r.gate), r.ev.listener(), r.lg)
 		r.opts = opts
 		var resume func()
 		if attempt == 1 {
@@ -823,6 +826,19 @@ func (r *runner) closeDB() (error, flow, error) {
 	}
 	r.db = nil
 	r.gate.freeze("closed")
+	// "Close releases everything": a Close that returned nil leaves no file
+	// handle of this instance open - also not one that was orphaned on an error
+	// path earlier. (Not judged after a failed Open in this case - the listed
+	// finding leaves background work of that instance running - nor when an
+	// injected error hit a File.Close: the handle below the injector stays open
+	// then although Pebble closed it.)
+	if cerr == nil && len(r.failedOpens) == 0 && r.inj.closeFaultsFired() == 0 {
+		r.C["close-handle-checks"]++
+		if open := r.handles.names(); len(open) > 0 {
+			return cerr, flowGo, fmt.Errorf("%s: DB.Close returned nil but %d file handle(s) opened by this DB instance are still open: %v (faults fired so far: %d)",
+				r.where(), len(open), open, r.inj.firedTotal())
+		}
+	}
 	return cerr, flowGo, nil
 }
 
